@@ -91,6 +91,18 @@ def run(ctx):
                 rec = observe(cat, k, o, n)
                 rec["id"] = "%s-%s-p%d" % (prof, cat.names[k - 1], len(batch))
                 batch.append(rec)
+        # size: %ordered / %rewrite groups of several hundred lines (real ACLs and prefix lists are that long); an untouched long block has
+        # no change, one appended line is one ADDED entry
+        for nm, mk in (("ordered", lambda rows: [{"row": ["acl", "1"], "kids": [{"row": ["rule", str(i)], "kids": []} for i in rows]}]),
+                       ("rewrite", lambda rows: [{"row": ["rp", "1"], "kids": [{"row": ["s%d" % i], "kids": []} for i in rows]}])):
+            if nm in cat.names:
+                k = cat.names.index(nm) + 1
+                for n in (256, 257, 300, 700 if not quick else 300):
+                    base = list(range(1, n + 1))
+                    for o, nw in ((base, base), (base, base + [9999]), (base, base[:-1])):
+                        rec = observe(cat, k, mk(o), mk(nw))
+                        rec["id"] = "%s-%s-big%d" % (prof, nm, len(batch))
+                        batch.append(rec)
         ctx.count(len(batch))
         for rec in batch:
             if rec["stripped"]:
